@@ -182,6 +182,21 @@ package interp
 //@   ensures done-raced: selCalled && atSelect(isDone(selCases[0], f))
 //@   ensures cancelled-stops: selChosen == 0 ==> next == nil
 
-// _select: the case vector is a slice of struct values that the closure fills in a loop; the
-// slice-of-struct model of govc (elements as references) is not faithful enough to carry
-// "cases[nbClause] is f.done" through that loop, so no contract is claimed for it here.
+// _select: the per-execution case vector ends with the frame's done case, the loop that fills
+// the channel operands leaves that last element alone, and the closure stops when it is chosen.
+//@ func _select(n)
+//@   props C09
+//@   opt gen = true
+//@   opt safety = off
+//@   opt loops = havoc
+//@   opt fn-values = pure
+//@   opt ghost-select = true
+//@   opt opaque-calls = *
+//@   opt opaque-havoc = none
+//@   opt ignore-contracts = genValue, getExec, clauseChanDir
+//@   exec (f) (ret)
+//@   exec-requires f != nil
+//@   exec-ensures done-raced: selCalled && atSelect(len(selCases) == nbClause+1 && isDone(selCases[nbClause], f))
+//@   exec-ensures cancelled-stops: selChosen == nbClause ==> ret == nil
+//@   exec-loop 1
+//@   invariant done-case-kept: len(cases) == nbClause+1 && isDone(cases[nbClause], f)
